@@ -118,7 +118,7 @@ CLAIMS = {
  "C08": dict(level="model_checking", design_ref="DESIGN.md 4/C08",
    text="SignExtend.tla models extending (signatures with/without calendar chain, publication or authentication record x targets head / equal / later / earlier / "
         "supplied publication record) with the extender's reply as an 11-attribute vector deviating from the honest reply in at most two attributes; TLC checks "
-        "SuccessOnlyIfValid and exports every behaviour, which is replayed through KSI_Signature_extendTo / KSI_Signature_extend over the real blocking TCP client and (targets head / supplied record) through KSI_AsyncExtendingHandle_new + KSI_AsyncHandle_getSignature on the extending asynchronous service "
+        "SuccessOnlyIfValid and exports every behaviour, which is replayed through KSI_Signature_extendTo / KSI_Signature_extend over the real blocking TCP client, the blocking HTTP client (scripted libcurl) and (targets head / supplied record) through KSI_AsyncExtendingHandle_new + KSI_AsyncHandle_getSignature on the extending asynchronous service "
         "with replies from the independent reference extender (right links taken over from the old chain). Success must coincide with the spec; the result must be "
         "the source aggregation chains byte-identical + the new calendar chain (+ the supplied publication record) with former records removed; the source "
         "serialization must not change. HashChain.tla's declarative Compatible(a,b) is compared with KSI_CalendarHashChain_verifyCompatibilityTo on all pairs of "
